@@ -18,7 +18,7 @@ RULE = ('quick: every outline AST with <=4 nodes and nesting <=2 over {step, if/
         'scripts to length 12; non-trivial when at least one predicate or >=2 calls were made')
 RULE += ('; also: steps that register awaitables, a description of the outline asked for first, decorated step functions, chains with a required output nobody emits')
 ASSUMPTIONS = ['predicates return real booleans', 'ToContext returns are C10\'s business', 'interpreter written from the property statement']
-REQUIRED = ['runs', 'ended/return', 'ended/value', 'ended/end', 'nodes/if', 'nodes/while', 'nodes/ret', 'calls_compared', 'falsy_stop_values', 'steps_registering_awaitables', 'value_with_awaitable', 'described_first', 'required_output_missing', 'decorated_steps_called', 'non_bool_predicates', 'outline_names_base_functions', 'empty_context_assignments', 'awaitable_stop_values', 'mapping_stop_values']
+REQUIRED = ['runs', 'ended/return', 'ended/value', 'ended/end', 'nodes/if', 'nodes/while', 'nodes/ret', 'calls_compared', 'falsy_stop_values', 'steps_registering_awaitables', 'value_with_awaitable', 'described_first', 'required_output_missing', 'decorated_steps_called', 'non_bool_predicates', 'outline_names_base_functions', 'empty_context_assignments', 'awaitable_stop_values', 'mapping_stop_values', 'one_predicate_for_a_chain']
 EXHAUSTIVE = {'quick': True, 'thorough': False}
 BOUNDS = {'quick': 'ASTs <=4 nodes depth<=2, predicate scripts <=4, exhaustive after de-duplication', 'thorough': '+5-node ASTs sampled, 4000 random ASTs depth<=4'}
 STOPVALS = [0, '', False, 7]
@@ -68,6 +68,10 @@ def gen_cases(tier, seed):
                     if how == 'value' and len(seen) % 2 == 0:
                         # the same run with the value that stops the chain being an awaitable object
                         yield {'ast': ast, 'preds': p[:np] if np <= len(p) else p, 'rets': list(r[:ns - 1]) + [('@AW', '@MAP0', '@MAP1')[(len(seen) // 2) % 3]], 'awaitable_value': True}
+                    if np >= 2 and len(seen) % 3 == 1 and _has_elif(ast):
+                        # the same run with ONE predicate function guarding every branch of an if_/elif_ chain (it is asked once per
+                        # conditional it guards, and may answer differently each time)
+                        yield {'ast': _same_pred(ast), 'preds': p[:np] if np <= len(p) else p, 'rets': r[:ns], 'same_predicate': True}
                     if ns and len(seen) % 5 == 3:
                         # the same run in a subclass that overrides some of the steps while the outline names the base class's functions
                         yield {'ast': ast, 'preds': p[:np] if np <= len(p) else p, 'rets': r[:ns], 'shadowed': True}
@@ -90,12 +94,30 @@ def gen_cases(tier, seed):
                 yield {'ast': ast, 'preds': p, 'rets': r, 'awaits': rng.random() < 0.3}
 
 
+def _has_elif(ast):
+    return any((n[0] == 'if' and (len(n[1]) > 1 or any(_has_elif(b) for _p, b in n[1]) or (n[2] is not None and _has_elif(n[2])))) or (n[0] == 'while' and _has_elif(n[2])) for n in ast)
+
+
+def _same_pred(ast):
+    out = []
+    for n in ast:
+        if n[0] == 'if':
+            first = n[1][0][0]
+            out.append(['if', [[first, _same_pred(b)] for _p, b in n[1]], _same_pred(n[2]) if n[2] is not None else None])
+        elif n[0] == 'while':
+            out.append(['while', n[1], _same_pred(n[2])])
+        else:
+            out.append(list(n))
+    return out
+
+
 def run_case(case):
     ast, preds, rets = case['ast'], case['preds'], case['rets']
     exp_trace, exp_result, how = outlines.interpret(ast, preds, rets)
     obs = {'runs': 1, 'ended': {how: 1}, 'nodes': {}, 'calls_compared': 0, 'falsy_stop_values': 0, 'described_first': 0}
     if how == 'budget':
         return {'viol': [], 'obs': obs, 'inconclusive': 'interpreter-budget', 'key': case, 'nontrivial': False}
+    obs['one_predicate_for_a_chain'] = int(bool(case.get('same_predicate')))
     obs['awaitable_stop_values'] = obs['mapping_stop_values'] = 0
     if isinstance(exp_result, str) and exp_result in outlines.SPECIAL_STOPS and how == 'value':
         obs['awaitable_stop_values' if exp_result == '@AW' else 'mapping_stop_values'] = 1
